@@ -50,7 +50,7 @@ class GeneratorSpec(Spec):
 
     def __init__(self, cfg, tier):
         super().__init__(cfg, tier)
-        self.time_budget = 30 if tier == "quick" else 300
+        self.time_budget = 150 if tier == "quick" else 800
         self._acts = [(r, rdy) for r in (None, "ack", "nak", "stall") for rdy in (0, 1)]
 
     def build(self):
@@ -145,7 +145,7 @@ class DetectorSpec(Spec):
 
     def __init__(self, cfg, tier):
         super().__init__(cfg, tier)
-        self.time_budget = 30 if tier == "quick" else 300
+        self.time_budget = 150 if tier == "quick" else 800
         later = (0x00, 0xD2, 0x2D) if tier == "quick" else (0x00, 0xD2, 0x2D, 0x5A, 0x1E, 0x96, 0xFF)
         self.a_idle = [("idle", g) for g in GARBAGE] + [("start", g) for g in GARBAGE]
         rest = [("end", g) for g in GARBAGE] + [("wait", g) for g in GARBAGE]
